@@ -31,6 +31,8 @@ def mk_path(it, lengths=True):
 
 
 def run(ctx):
+    global N
+    N = 4 if ctx.tier == 'thorough' else 3      # thorough: one more segment (more interior boundaries, more label paths)
     mdl = ctx.model
     ctx.assume('segment length fractions are positive symbols l0,l1,l2 (zero-length segments in leading position are outside the quantifier)')
     ctx.rule('R05.1', 'Path.point(T) and Path.T2t(T) pick the same (segment, t); the segment is the first whose cumulative fraction '
@@ -84,7 +86,7 @@ def run(ctx):
         if ok is not True:
             probs.append('t2T(T2t(T)) != T: ' + d)
         return not probs, '; '.join(probs)
-    ob('R05.1').run(ft2, 'T2t / point / t2T agree on a 3-segment path, all T in (0,1)', th_scan, judge_scan,
+    ob('R05.1').run(ft2, 'T2t / point / t2T agree on a %d-segment path, all T in (0,1)' % N, th_scan, judge_scan,
                     allowed_raises=('AssertionError', 'BugException', 'RuntimeError'), opts=nocalc)
 
     ft = mdl.func('path.Path.t2T')
@@ -168,7 +170,7 @@ def run(ctx):
             if ok is not True:
                 probs.append(d)
         return not probs, '; '.join(probs)
-    ob('R05.3').run(fc, '_calc_lengths on 3 segments (positive lengths)', th_calc, judge_calc,
+    ob('R05.3').run(fc, '_calc_lengths on %d segments (positive lengths)' % N, th_calc, judge_calc,
                     opts={'call_hooks': {'path.Line.length': len_hook}})
     # zero total (all segments degenerate): the normalisation must not divide by it
     def th_zero(it):
@@ -178,7 +180,7 @@ def run(ctx):
         return p
 
     def judge_zero(p):
-        ok = to_rat(p.attrs['_length']).is_zero() and len(p.attrs['_lengths']) == 3
+        ok = to_rat(p.attrs['_length']).is_zero() and len(p.attrs['_lengths']) == N
         return ok, '' if ok else 'total %r / fractions %r for three zero-length segments' % (p.attrs['_length'], p.attrs['_lengths'])
     ob('R05.3').run(fc, 'division by the total is guarded against a zero total', th_zero, judge_zero,
                     opts={'call_hooks': {'path.Line.length': lambda it, a, k: Rat.const(0)}})
@@ -192,8 +194,8 @@ def run(ctx):
         subs = it.call_method(p, 'continuous_subpaths')
         joints = [path_sign(it, segs[k].attrs['end'] - segs[k + 1].attrs['start']) for k in range(N - 1)]
         pieces = [[s for s in it.iterate(sp)] for sp in subs]
-        closedac = it.call_method(p, 'isclosedac')
-        cl = path_sign(it, p.attrs['_segments'][0].attrs['start'] - p.attrs['_segments'][-1].attrs['end'])
+        closedac = it.truth(it.call_method(p, 'isclosedac'))
+        cl = path_sign_mod(it, p.attrs['_segments'][0].attrs['start'] - p.attrs['_segments'][-1].attrs['end'])
         return cont, pieces, joints, segs, closedac, cl
 
     def judge_cont(v):
@@ -224,10 +226,21 @@ def run(ctx):
             probs.append('isclosedac()=%r although start %s end' % (closedac, '==' if cl == frozenset('0') else '!='))
         return not probs, '; '.join(probs)
     for nm, f in (('iscontinuous', mdl.func('path.Path.iscontinuous')), ('continuous_subpaths', fcs), ('isclosed', mdl.func('path.Path.isclosed'))):
-        ob('R05.4').run(f, 'continuity predicates on 3 segments with independent end points (%s)' % nm, th_cont, judge_cont,
+        ob('R05.4').run(f, 'continuity predicates on %d segments with independent end points (%s)' % (N, nm), th_cont, judge_cont,
                         allowed_raises=('AssertionError',))
-    # isclosed = start == end under its assertions
+    # isclosed <=> start == end (under its own assertions)
     fic = mdl.func('path.Path.isclosed')
-    rets = [norm(n.value) for n in ast.walk(fic.node) if isinstance(n, ast.Return)]
-    ctx.record('R05.4', fic.qualname, 'isclosed returns start == end', rets in (['self.start == self.end'], ['self.end == self.start']),
-               detail='returns %s' % rets, where=where(fic), nontrivial=False)
+
+    def th_closed(it):
+        p, segs = mk_path(it, lengths=False)
+        r = it.truth(it.call_method(p, 'isclosed'))
+        return r, path_sign_mod(it, segs[0].attrs['start'] - segs[-1].attrs['end'])
+
+    def judge_closed(v):
+        r, cl = v
+        if cl not in (frozenset('0'), frozenset('-+')):
+            return False, 'isclosed() answers %r without deciding whether start == end' % (r,)
+        ok = isinstance(r, bool) and r == (cl == frozenset('0'))
+        return ok, '' if ok else 'isclosed()=%r although start %s end' % (r, '==' if cl == frozenset('0') else '!=')
+    ob('R05.4').run(fic, 'isclosed() <=> start == end on a continuous path', th_closed, judge_closed, allowed_raises=('AssertionError',),
+                    opts={'call_hooks': {'path.Path.iscontinuous': lambda it, a, k: True}})
